@@ -4,22 +4,22 @@ Import ListNotations.
 Local Open Scope N_scope.
 
 (* C15: every credential create_from_yaml_config makes for a non-EdgeLock family from
-   - RSA-2048/4096 RoT keys (1..4, exponents of at most 3 bytes, any used index, no key record hashing to the all-zero
-     digest -- a SHA-256 preimage of zero) and a DCK of the same size, or
+   - RSA-2048/4096 RoT keys (1..4, exponents of at most 3 bytes, any used index) and a DCK of the same size, or
    - P-256 / P-384 / P-521 RoT keys (1..4 points of one curve, any used index) and a DCK of that curve,
    with a 16-byte uuid and 32-bit socc/cc_socu/cc_vu/beacon, signed with a signature of the keys size, exports and parses
-   back to the same field values -- except in the recorded class C15-F1 (P-521 with two or more RoT keys). *)
-Theorem dc_created_roundtrip_except_known :
+   back to the same field values.  No class is excluded.  The RSA branch keeps one premise that is genuinely needed: no
+   key record hashes to the all-zero SHA-256 digest (RotMetaRSA.parse treats an all-zero slot as "no key" and drops it). *)
+Theorem dc_created_roundtrip :
   forall cnt socc ks rot_id dck uuid socu vu beacon fca sig,
   length uuid = 16%nat -> u32_ok socc -> u32_ok socu -> u32_ok vu -> u32_ok beacon -> (length ks <= 4)%nat ->
   ( (exists kb mi, (kb = 256%nat /\ mi = 0 \/ kb = 512%nat /\ mi = 1)
         /\ (exists rot, nth_error ks (N.to_nat rot_id) = Some rot /\ rsa_rot_wf kb rot) /\ Forall rsa_e3 ks
         /\ (forall items, map_res dc_rsa_item ks = Ok items -> Forall (fun it => all_zero it = false) items)
-        /\ rsa_key_wf kb dck /\ length sig = kb)
+        /\ rsa_rot_wf kb dck /\ length sig = kb)
     \/ (exists c mi, (c = 256 /\ mi = 0 \/ c = 384 /\ mi = 1 \/ c = 521 /\ mi = 2) /\ ks <> []
         /\ (N.to_nat rot_id < length ks)%nat /\ Forall (ecc_key_wf c) ks /\ ecc_key_wf c dck
-        /\ ~ (c = 521 /\ (2 <= length ks)%nat) /\ length sig = (2 * coord_size c)%nat) ) ->
+        /\ length sig = (2 * coord_size c)%nat) ) ->
   exists c d b, dc_create 0 cnt socc ks rot_id dck uuid socu vu beacon fca = Ok (c, d)
                 /\ dc_export c (dc_with_sig d sig) = Ok b /\ forall extra, dc_parse_class c (b ++ extra) = Ok (dc_with_sig d sig).
 Proof. exact dc_created_roundtrip_lemma. Qed.
-Print Assumptions dc_created_roundtrip_except_known.
+Print Assumptions dc_created_roundtrip.
